@@ -12,7 +12,7 @@ RULE = (
     "pair: a generated nested backtest whose sub-strategies have deterministic, calendar-gated stacks (any parent stack and allocation schedule incl. never/late/de-funding, parent "
     "capital 1e4..5e8, integer or fractional positions, any commission spec and spread) vs, for every sub-strategy, a stand-alone Backtest of the same definition over the same data "
     "with the same settings; one family has leveraged / short children on jumpy prices, which may go bankrupt on their own. Oracle: child.prices of the nested run equals the stand-alone strategy.prices date for date (1e-12 relative), and the parent's universe column of the "
-    "child equals child.prices. non-trivial = the child trades at least twice and the parent's allocation to it changes at least once. distinct = distinct spec hashes."
+    "child equals child.prices. pair_rot: the same comparison with every child's stack ending in RebalanceOverTime(n) marked run_always (an algo that keeps its state on the algo object and is reached on every date). non-trivial = the child trades at least twice and the parent's allocation to it changes at least once. distinct = distinct spec hashes."
 )
 ASSUMPTIONS = ["children use no RNG-based algos and are gated by a calendar scheduler (the statement's quantifier)", "stand-alone definitions that go bankrupt are compared too (their index freezes at the bankruptcy)"]
 BUILDS = {"quick": ["py"], "thorough": ["py", "cy"]}
@@ -98,9 +98,27 @@ def pair_spec():
     return st.one_of(two, two, three, lev, late)
 
 
-SUBS = {"pair": case_pair}
-STRATS = {"pair": pair_spec}
+def _stateful_children(spec):
+    """every sub-strategy ends its stack with RebalanceOverTime(n) marked run_always (it keeps its target and the number of steps left
+    on the algo object and has to be reached on every date) instead of Rebalance: state kept by an algo of the definition belongs to each
+    copy of the definition - the sub-strategy inside the tree, its shadow copy, the stand-alone backtest - separately"""
+    k = 0
+    for path, nd in gen.walk_nodes(spec["tree"]):
+        if len(path) > 1 and nd.get("algos") and nd["algos"][-1][0] == "Rebalance":
+            nd["algos"][-1] = ["RebalanceOverTime", {"n": 2 + (len(spec["dates"]) + k) % 4, "run_always": True}]
+            k += 1
+    spec["stateful_children"] = True
+    return spec
+
+
+def rot_spec():
+    return gen.backtest_spec(nested=True, deterministic_children=True, min_dates=5, max_dates=18).map(_stateful_children)
+
+
+SUBS = {"pair": case_pair, "pair_rot": case_pair}
+STRATS = {"pair": pair_spec, "pair_rot": rot_spec}
 
 
 def shard(ctx):
     run_sub(ctx, "pair", pair_spec(), lambda s: case_pair(ctx, s), ctx.n(2400, 24000))
+    run_sub(ctx, "pair_rot", rot_spec(), lambda s: case_pair(ctx, {k: v for k, v in s.items() if k != "stateful_children"}), ctx.n(600, 8000))
